@@ -75,8 +75,16 @@ def run(chk, replay=None):
             v = gen.gen_val(rng, t)
             decl.append((n, t))
             lits[n] = v
-            body.append("let w%d: %s = witness::%s;" % (j, gen.ty_src(t), n))
-            body += assert_eq("w%d" % j, t, v, fresh)
+            stm = ["let w%d: %s = witness::%s;" % (j, gen.ty_src(t), n)] + assert_eq("w%d" % j, t, v, fresh)
+            c = rng.random()
+            if c < 0.15:
+                # the witness is read inside a match arm (the other arm reads nothing)
+                stm = ["match true { true => { %s }, false => { }, };" % " ".join(stm)]
+            elif c < 0.25:
+                stm = ["match Left(()) { Right(r%d: u8) => (), Left(l%d: ()) => { %s }, };" % (j, j, " ".join(stm))]
+            elif c < 0.35:
+                stm = ["{ { %s }; };" % " ".join(stm)]
+            body += stm
         text = "fn main() { %s }" % " ".join(body)
         base = [(n, lits[n]) for n, _ in decl]
         variants = [("exact", list(base))]
